@@ -8,5 +8,5 @@ import "github.com/talostrading/sonic/internal"
 // poller. It exists only under the `verif` build tag; a runtime monitor uses it to widen interleaving
 // windows or to run the garbage collector at a known place inside a poll batch.
 func VerifSetPoint(f func(name string)) {
-	internal.VerifPoint = f
+	internal.SetVerifPoint(f)
 }
